@@ -189,7 +189,76 @@ def gen_cases(seed, tier):
             forced.pop(0)
         cases.append({"spec": spec, "rows": rows, "info": info, "k": len(rows[free[0]]), "free": free, "optional": optional,
                       "seed": int(rng.integers(0, 2 ** 31)), "uservol": bool(rng.random() < 0.2)})
+    # points (0-dimensional domains) in 2-D / 3-D: moving with one or two variables, constant ones given as a tensor, and a
+    # moving point as factor of a product (the product hands the values to both factors: the point is evaluated twice)
+    rng6 = np.random.default_rng([seed, 17, 6])
+    for i in range(16 if tier == "quick" else 400):
+        cases.append({"pointcase": ["moving2", "constant_tensor", "product", "moving1"][i % 4], "dim": int(rng6.choice([2, 3])),
+                      "seed": int(rng6.integers(0, 2 ** 31)), "info": {"kind": "point", "desc": "pt"}, "k": 1, "free": ["t", "u"]})
     return cases
+
+
+def run_point_case(case):
+    import torch
+    import torchphysics as tp
+    res = {"cls": "point|%s|d%d" % (case["pointcase"], case["dim"]), "judged": 0, "nontrivial": False, "viol": [], "counters": {}}
+    rng = np.random.default_rng(case["seed"])
+    d = case["dim"]
+    X = tp.spaces.Rn("x", d)
+    a = np.round(rng.uniform(-2, 2, d), 3).astype(np.float32)
+    bt = np.round(rng.uniform(0.5, 1.5, d), 3).astype(np.float32)
+    bu = np.round(rng.uniform(-1.5, -0.5, d), 3).astype(np.float32)
+    tv, uv = float(np.float32(rng.uniform(0.2, 1.8))), float(np.float32(rng.uniform(0.2, 1.8)))
+    ta, tbt, tbu = torch.tensor(a), torch.tensor(bt), torch.tensor(bu)
+    kind = case["pointcase"]
+    mech = {"root": "point", "variant": kind, "dim": d}
+    T1 = lambda v: torch.tensor([[v]], dtype=torch.float32)
+    try:
+        if kind == "moving2":
+            P = tp.domains.Point(X, lambda t, u: ta + tbt * t + tbu * u)
+            want = a + bt * tv + bu * uv
+            objs = {"D(t,u)": P(t=T1(tv), u=T1(uv)), "D(t)(u)": P(t=T1(tv))(u=T1(uv)), "D(u)(t)": P(u=T1(uv))(t=T1(tv)),
+                    "D(t,u)(t)": P(t=T1(tv), u=T1(uv))(t=T1(tv + 1.0))}
+        elif kind == "moving1":
+            P = tp.domains.Point(X, lambda t: ta + tbt * t)
+            want = a + bt * tv
+            objs = {"D(t)": P(t=T1(tv)), "D(t)(u)": P(t=T1(tv))(u=T1(uv)), "D(t)(t)": P(t=T1(tv))(t=T1(tv + 1.0))}
+        elif kind == "constant_tensor":
+            P = tp.domains.Point(X, torch.tensor(a))
+            want = a
+            objs = {"D": P, "D(t)": P(t=T1(tv)), "D(t)(u)": P(t=T1(tv))(u=T1(uv))}
+        else:
+            S = tp.spaces.R1("s")
+            P = tp.domains.Point(X, lambda t: ta + tbt * t) * tp.domains.Interval(S, 0.0, lambda u: 1.0 + u)
+            want = a + bt * tv
+            objs = {"D(t,u)": P(t=T1(tv), u=T1(uv)), "D(t)(u)": P(t=T1(tv))(u=T1(uv)), "D(u)(t)": P(u=T1(uv))(t=T1(tv))}
+    except Exception as e:
+        res["viol"].append(viol("exception", "partial evaluation of a %s point raised %s in %s: %s" % (kind, type(e).__name__, exc_site(e),
+                                str(e)[:200]), exc=type(e).__name__, site=exc_site(e), call="__call__", **mech))
+        return res
+    for name, Dq in objs.items():
+        m2 = dict(mech, evaluation=name)
+        try:
+            S_ = Dq.sample_random_uniform(n=3)
+            got = S_.coordinates["x"].detach().double().numpy().reshape(-1, d)
+            res["judged"] += 1
+            res["counters"]["point_evaluations"] = res["counters"].get("point_evaluations", 0) + 1
+            if got.shape[0] != 3 or np.abs(got - want[None]).max() > 1e-5 * max(1.0, np.abs(want).max()):
+                res["viol"].append(viol("evaluated_sample_outside", "%s of a %s point in %d-D: samples %s, the point is %s" %
+                                        (name, kind, d, got[:2].round(5).tolist(), want.round(5).tolist()), target="interior", **m2))
+            if kind != "product":
+                q = np.stack([want, want[::-1] if np.abs(want - want[::-1]).max() > 1e-3 else want + 0.5, np.full(d, want[0])]).astype(np.float32)
+                inside = Dq._contains(tp.spaces.Points(torch.tensor(q), X)).reshape(-1).bool().numpy()
+                exp = np.array([True, False, bool(np.abs(np.full(d, want[0]) - want).max() < 1e-6)])
+                res["judged"] += 3
+                if (inside != exp).any():
+                    res["viol"].append(viol("evaluated_membership_differs", "%s of a %s point %s in %d-D: membership of %s is %s, expected %s" %
+                                            (name, kind, want.round(5).tolist(), d, q.round(5).tolist(), inside.tolist(), exp.tolist()), **m2))
+        except Exception as e:
+            res["viol"].append(viol("exception", "%s of a %s point: %s in %s: %s" % (name, kind, type(e).__name__, exc_site(e), str(e)[:200]),
+                                    exc=type(e).__name__, site=exc_site(e), call="sample", **m2))
+    res["nontrivial"] = res["judged"] >= 3
+    return res
 
 
 def _pts(names_dims, X):
@@ -219,6 +288,8 @@ def _subsets(free):
 
 def run_case(case):
     import torch
+    if case.get("pointcase"):
+        return run_point_case(case)
     info = case["info"]
     res = {"cls": "", "judged": 0, "nontrivial": False, "viol": [], "counters": {}}
     D, node, Pfull, env = sampling.build_case(case)
